@@ -631,3 +631,268 @@ Proof.
   apply (proj1 (complete_only_after_last c Hc ops Hcli s Hp)) in Ht.
   f_equal. unfold nstages in *. lia.
 Qed.
+
+(* ------------------------------------------------------------------------------------------
+   System level: hand-over inside _handle_completion composed with the pipeline manager *)
+Lemma ev_justified_mono pre x ev : ev_justified pre ev -> ev_justified (pre ++ x) ev.
+Proof.
+  destruct ev; cbn; intros H; try (destruct H as [H|[H1 H2]]; [left; assumption|right; split; apply in_or_app; left; assumption]);
+    try (destruct H as [H1 H2]; split; apply in_or_app; left; assumption); apply in_or_app; left; assumption.
+Qed.
+
+Lemma log_ordered_nil : log_ordered [].
+Proof. intros pre ev post H. destruct pre; discriminate. Qed.
+
+Lemma log_ordered_snoc L ev : log_ordered L -> ev_justified L ev -> log_ordered (L ++ [ev]).
+Proof.
+  intros HL Hev pre e post Heq.
+  destruct post as [|p post0] using rev_ind.
+  - apply app_inj_tail in Heq as [-> ->]. assumption.
+  - clear IHpost0. rewrite app_comm_cons, app_assoc in Heq. apply app_inj_tail in Heq as [Heq _].
+    apply (HL pre e post0). assumption.
+Qed.
+
+Lemma log_ordered_app L evs : log_ordered L ->
+  (forall pre ev post, evs = pre ++ ev :: post -> ev_justified (L ++ pre) ev) -> log_ordered (L ++ evs).
+Proof.
+  revert L; induction evs as [|a t IH]; intros L HL H.
+  - rewrite app_nil_r. assumption.
+  - replace (L ++ a :: t) with ((L ++ [a]) ++ t) by (rewrite <- app_assoc; reflexivity).
+    apply IH.
+    + apply log_ordered_snoc; [assumption|]. specialize (H [] a t eq_refl). rewrite app_nil_r in H. assumption.
+    + intros pre ev post Heq. rewrite <- app_assoc. apply (H (a :: pre) ev post). rewrite Heq. reflexivity.
+Qed.
+
+Lemma submitted_In k l : In k (submitted l) <-> In (EvSubmit k) l.
+Proof.
+  unfold submitted. rewrite in_flat_map. split.
+  - intros (ev & Hin & Hev). destruct ev; cbn in Hev; try tauto. destruct Hev as [<-|[]]. assumption.
+  - intros Hin. exists (EvSubmit k). split; [assumption|left; reflexivity].
+Qed.
+
+Lemma memZ_In x l : memZ x l = true <-> In x l.
+Proof.
+  unfold memZ. rewrite existsb_exists. split.
+  - intros (y & Hin & Heq). apply Z.eqb_eq in Heq. subst. assumption.
+  - intros Hin. exists x. split; [assumption|apply Z.eqb_refl].
+Qed.
+
+Lemma remove1_In x k l : In x (remove1 k l) -> In x l.
+Proof.
+  induction l as [|h t IH]; simpl; [tauto|]. destruct (k =? h); [tauto|]. intros [->|H]; [left; reflexivity|right; auto].
+Qed.
+
+Lemma skipn_exact {A} (a b : list A) : skipn (length a) (a ++ b) = b.
+Proof. induction a; simpl; auto. Qed.
+
+Definition silent (evs : list pevent) : Prop :=
+  submitted evs = [] /\ configured evs = [] /\ config_read evs = [] /\ advanced evs = [].
+
+Lemma inv_add_log w evs : silent evs -> inv w -> inv (add_log w evs).
+Proof.
+  intros (S1 & S2 & S3 & S4). unfold inv, add_log. cbn [w_pipe w_log]. destruct (w_pipe w) as [s|].
+  - unfold pinv. rewrite advanced_app, submitted_app, configured_app, config_read_app, S1, S2, S3, S4, !app_nil_r. tauto.
+  - unfold quiet. rewrite advanced_app, submitted_app, configured_app, config_read_app, S1, S2, S3, S4, !app_nil_r. tauto.
+Qed.
+
+Definition sinv (y : sys) : Prop :=
+  let L := w_log (y_world y) in
+  inv (y_world y) /\ log_ordered L /\
+  submitted L = zseq 1 (length (submitted L)) /\
+  (forall k, In k (y_outstanding y) -> In (EvSubmit k) L) /\
+  (forall k, In k (y_completed y) -> In (EvSubmit k) L /\ In (EvMarkComplete k) L).
+
+Lemma sinv_init : sinv init_sys.
+Proof.
+  unfold sinv. cbn. split; [apply inv_init|]. split; [apply log_ordered_nil|]. split; [reflexivity|].
+  split; intros k [].
+Qed.
+
+(* extending 1..m by its successor *)
+Lemma zseq_extend l k : l = zseq 1 (length l) -> In k l -> Forall (fun x => x <= k) l ->
+  l ++ [k + 1] = zseq 1 (length (l ++ [k + 1])).
+Proof.
+  intros Hl Hin Hle. rewrite app_length. cbn [length]. rewrite Nat.add_1_r, zseq_snoc, <- Hl. f_equal. f_equal.
+  set (m := length l) in *.
+  rewrite Hl in Hin. apply zseq_In in Hin.
+  assert (Hm : (0 < m)%nat) by lia.
+  assert (Hmin : In (Z.of_nat m) l) by (rewrite Hl; apply zseq_In; lia).
+  rewrite Forall_forall in Hle. specialize (Hle _ Hmin). lia.
+Qed.
+
+Lemma complete_world_spec w0 k res e :
+  inv w0 -> log_ordered (w_log w0) -> submitted (w_log w0) = zseq 1 (length (submitted (w_log w0))) ->
+  In (EvSubmit k) (w_log w0) ->
+  let w2 := complete_world std_consts w0 k res e in
+  inv w2 /\ log_ordered (w_log w2) /\ submitted (w_log w2) = zseq 1 (length (submitted (w_log w2))) /\
+  exists ext, w_log w2 = w_log w0 ++ EvMarkComplete k :: ext.
+Proof.
+  intros Hinv Hord Hseq HsubK. unfold complete_world. cbn [c_after_mark c_hand std_consts].
+  set (wm := add_log w0 [EvMarkComplete k]).
+  assert (Hinvm : inv wm) by (apply inv_add_log; [repeat split|assumption]).
+  assert (Hordm : log_ordered (w_log wm)) by (apply log_ordered_snoc; assumption).
+  assert (HmarkK : In (EvMarkComplete k) (w_log wm)) by (apply in_or_app; right; left; reflexivity).
+  assert (HsubKm : In (EvSubmit k) (w_log wm)) by (apply in_or_app; left; assumption).
+  assert (Hsubm : submitted (w_log wm) = submitted (w_log w0)) by (cbn; rewrite submitted_app; cbn; apply app_nil_r).
+  assert (Hlm : w_log wm = w_log w0 ++ [EvMarkComplete k]) by reflexivity.
+  clearbody wm.
+  pose proof (inv_step wm (OpNext (k + 1) (Some res) e) eq_refl Hinvm) as Hinv2.
+  assert (Hsame : forall w2, w_log w2 = w_log wm -> inv w2 ->
+            inv w2 /\ log_ordered (w_log w2) /\ submitted (w_log w2) = zseq 1 (length (submitted (w_log w2))) /\
+            exists ext, w_log w2 = w_log w0 ++ EvMarkComplete k :: ext).
+  { intros w2 Hl Hi. rewrite Hl. split; [assumption|]. split; [assumption|]. split; [rewrite Hsubm; assumption|].
+    exists []. assumption. }
+  unfold step in *. destruct (w_pipe wm) as [s|] eqn:Hp.
+  2:{ cbn [snd] in *. apply Hsame; [reflexivity|assumption]. }
+  unfold inv in Hinvm. rewrite Hp in Hinvm.
+  destruct (next_some_spec (k + 1) res e s (w_log wm) Hinvm)
+    as [[_ Heq]|[(_ & _ & Heq)|(Hk & Hle & r & s' & evs & Heq & Hacc & Ha & Hs & Hr & Hcase)]];
+    rewrite Heq in *; cbn [snd] in *.
+  - apply Hsame; [reflexivity|assumption].
+  - apply Hsame; [reflexivity|assumption].
+  - assert (Hstage : p_stage s = k) by lia.
+    assert (Hevs : (submitted evs = [] \/ submitted evs = [k + 1]) /\
+                   forall ev, In ev evs -> ev = EvAutoConfig (k + 1) \/ ev = EvReadConfig (k + 1) \/ ev = EvSubmit (k + 1)).
+    { destruct Hcase as [(_ & -> & _)|(_ & _ & (E1 & _ & _ & _ & E5) & _)]; [split; [left; reflexivity|intros ev []]|split; assumption]. }
+    destruct Hevs as [E1 E5]. cbn [w_log].
+    split; [assumption|].
+    split.
+    { apply log_ordered_app.
+      - apply log_ordered_snoc; [assumption|]. cbn. replace (k + 1 - 1) with k by lia. split; assumption.
+      - intros pre ev post Hev.
+        assert (Hin : In ev evs) by (rewrite Hev; apply in_or_app; right; left; reflexivity).
+        assert (HJ : In (EvMarkComplete k) ((w_log wm ++ [EvAdvance (k + 1) res]) ++ pre) /\
+                     In (EvSubmit k) ((w_log wm ++ [EvAdvance (k + 1) res]) ++ pre))
+          by (split; apply in_or_app; left; apply in_or_app; left; assumption).
+        destruct (E5 ev Hin) as [->|[->| ->]]; cbn; right; replace (k + 1 - 1) with k by lia; exact HJ. }
+    split.
+    { rewrite !submitted_app, Hsubm. cbn [submitted flat_map app]. rewrite app_nil_r.
+      destruct E1 as [->| ->]; [rewrite app_nil_r; assumption|].
+      apply zseq_extend; [assumption|apply submitted_In; assumption|].
+      destruct Hinvm as (_ & _ & _ & _ & _ & [_ Hf] & _). rewrite Hsubm in Hf.
+      eapply Forall_impl; [|exact Hf]. cbn. intros; lia. }
+    exists (EvAdvance (k + 1) res :: evs). rewrite Hlm, <- !app_assoc. reflexivity.
+Qed.
+
+Lemma sinv_step y o y' : sinv y -> sys_step std_consts y o = Some y' -> sinv y'.
+Proof.
+  intros (Hinv & Hord & Hseq & Hout & Hcomp) Hstep. unfold sys_step in Hstep.
+  destruct (c05_enabled y o) eqn:Hen; cbn [negb] in Hstep; [|discriminate].
+  set (w0 := y_world y) in *.
+  destruct o as [autos e|k res e|k].
+  - (* SysStart *)
+    injection Hstep as <-. unfold sinv. cbn [y_world y_outstanding y_completed].
+    pose proof (inv_step w0 (OpSubmit autos e) eq_refl Hinv) as Hinv1.
+    unfold step in *. destruct (w_pipe w0) as [s|] eqn:Hp.
+    + cbn [snd] in *. split; [assumption|]. split; [assumption|]. split; [assumption|].
+      unfold new_submissions. replace (skipn (length (w_log w0)) (w_log w0)) with (@nil pevent) by (rewrite <- (app_nil_r (w_log w0)) at 2; rewrite skipn_exact; reflexivity).
+      cbn. rewrite app_nil_r. split; assumption.
+    + unfold inv in Hinv. rewrite Hp in Hinv. destruct Hinv as (Q1 & Q2 & Q3 & Q4).
+      cbn [c_cli_first std_consts] in *. unfold next_stage in *. cbn [c_assert std_consts Z.eqb Pos.eqb] in *.
+      set (s0 := init_pipe std_consts autos) in *.
+      destruct (advance_spec e s0 (w_log w0)) as [[Hd Heq]|[Hd (r & evs & Heq & (E1 & _ & _ & _ & E5) & _)]].
+      * change (p_stage s0) with 1. unfold nstages. lia.
+      * rewrite Heq in *. cbn [snd w_log] in *. split; [assumption|]. split; [assumption|]. split; [assumption|].
+        unfold new_submissions. cbn [w_log].
+        replace (skipn (length (w_log w0)) (w_log w0)) with (@nil pevent) by (rewrite <- (app_nil_r (w_log w0)) at 2; rewrite skipn_exact; reflexivity).
+        cbn. rewrite app_nil_r. split; assumption.
+      * rewrite Heq in *. cbn [snd w_log] in *. split; [assumption|].
+        split.
+        { apply log_ordered_app; [assumption|]. intros pre ev post Hev.
+          assert (Hin : In ev evs) by (rewrite Hev; apply in_or_app; right; left; reflexivity).
+          change (p_stage s0) with 1 in E5. destruct (E5 ev Hin) as [->|[->| ->]]; left; reflexivity. }
+        split.
+        { rewrite submitted_app, Q1. cbn [app]. change (p_stage s0) with 1 in E1. destruct E1 as [->| ->]; reflexivity. }
+        unfold new_submissions. cbn [w_log]. rewrite skipn_exact.
+        split.
+        { intros k Hk. apply in_app_or in Hk as [Hk|Hk]; apply in_or_app; [left; auto|right; apply submitted_In; assumption]. }
+        { intros k Hk. destruct (Hcomp k Hk). split; apply in_or_app; left; assumption. }
+  - (* SysComplete *)
+    cbn [c05_enabled] in Hen. apply memZ_In in Hen. pose proof (Hout k Hen) as HsubK.
+    injection Hstep as <-. unfold sinv. cbn [y_world y_outstanding y_completed].
+    destruct (complete_world_spec w0 k res e Hinv Hord Hseq HsubK) as (Hi2 & Ho2 & Hs2 & ext & Hext).
+    fold w0. set (w2 := complete_world std_consts w0 k res e) in *. clearbody w2.
+    split; [assumption|]. split; [assumption|]. split; [assumption|].
+    unfold new_submissions. rewrite Hext, skipn_exact.
+    split.
+    + intros k0 Hk0. apply in_app_or in Hk0 as [Hk0|Hk0].
+      * apply in_or_app; left. apply Hout. eapply remove1_In; eassumption.
+      * apply in_or_app; right. apply submitted_In. assumption.
+    + intros k0 [<-|Hk0].
+      * split; [apply in_or_app; left; assumption|apply in_or_app; right; left; reflexivity].
+      * destruct (Hcomp k0 Hk0). split; apply in_or_app; left; assumption.
+  - (* SysResubmit *)
+    cbn [c05_enabled] in Hen. apply andb_true_iff in Hen as [Hc _]. apply memZ_In in Hc. destruct (Hcomp k Hc) as [Hs Hm].
+    injection Hstep as <-. unfold sinv. cbn [y_world y_outstanding y_completed add_log w_log]. fold w0.
+    split; [apply inv_add_log; [repeat split|assumption]|].
+    split; [apply log_ordered_snoc; assumption|].
+    split; [rewrite submitted_app; cbn; rewrite app_nil_r; assumption|].
+    split.
+    + intros k0 [<-|Hk0]; apply in_or_app; left; [assumption|apply Hout; assumption].
+    + intros k0 Hk0. destruct (Hcomp k0 Hk0). split; apply in_or_app; left; assumption.
+Qed.
+
+Lemma sinv_run ops : forall y y', sinv y -> sys_run std_consts y ops = Some y' -> sinv y'.
+Proof.
+  induction ops as [|o t IH]; intros y y' Hy Hrun; simpl in Hrun.
+  - injection Hrun as <-. assumption.
+  - destruct (sys_step std_consts y o) as [y1|] eqn:Hs; [|discriminate].
+    apply (IH y1); [eapply sinv_step; eassumption|assumption].
+Qed.
+
+Lemma pinv_rc s log : pinv s log -> forall j rc, 1 <= j <= nstages s ->
+  (recorded_rc s j = Some rc <-> In (EvAdvance (j + 1) rc) log).
+Proof.
+  intros (Hst & Hlen & _ & Hkeys & Hrc & _) j rc Hj. unfold nstages in Hj.
+  rewrite recorded_rc_nth by (rewrite Hlen; lia).
+  rewrite Hrc by lia. replace (Z.of_nat (Z.to_nat (j - 1)) + 2) with (j + 1) by lia.
+  rewrite assocZ_In by (rewrite Hkeys; apply zseq_NoDup). apply advanced_In.
+Qed.
+
+(* S1: every event of the whole system is justified by what happened before it *)
+Lemma sys_handover_order c : c = std_consts -> forall ops y,
+  sys_run c init_sys ops = Some y -> log_ordered (w_log (y_world y)).
+Proof. intros -> ops y Hrun. apply (sinv_run ops init_sys y sinv_init Hrun). Qed.
+
+(* S2: gap-free, duplicate-free, whatever the environment does *)
+Lemma sys_order_once c : c = std_consts -> forall ops y,
+  sys_run c init_sys ops = Some y ->
+  let L := w_log (y_world y) in
+  submitted L = zseq 1 (length (submitted L)) /\
+  NoDup (submitted L) /\ NoDup (configured L) /\ NoDup (config_read L) /\
+  forall k, In k (submitted L) -> exists s, w_pipe (y_world y) = Some s /\ 1 <= k <= p_stage s /\ k <= nstages s.
+Proof.
+  intros -> ops y Hrun L. destruct (sinv_run ops init_sys y sinv_init Hrun) as (Hinv & _ & Hseq & _).
+  fold L in Hseq. split; [assumption|]. unfold inv in Hinv. destruct (w_pipe (y_world y)) as [s|] eqn:Hp.
+  - destruct Hinv as (_ & _ & _ & _ & _ & [S1 F1] & [S2 _] & [S3 _]). fold L in S1, S2, S3, F1.
+    split; [apply sorted_NoDup; assumption|]. split; [apply sorted_NoDup; assumption|]. split; [apply sorted_NoDup; assumption|].
+    intros k Hk. exists s. split; [reflexivity|]. rewrite Forall_forall in F1. specialize (F1 k Hk). lia.
+  - destruct Hinv as (Q1 & Q2 & Q3 & _). fold L in Q1, Q2, Q3. rewrite Q1, Q2, Q3.
+    split; [constructor|]. split; [constructor|]. split; [constructor|]. intros k [].
+Qed.
+
+(* S3: complete only after every stage was submitted and its submission marked complete; the recorded
+   return codes are the result values handed over by those completions *)
+Lemma sys_complete c : c = std_consts -> forall ops y,
+  sys_run c init_sys ops = Some y ->
+  forall s, w_pipe (y_world y) = Some s -> p_complete s = true ->
+  let L := w_log (y_world y) in
+  p_stage s = nstages s + 1 /\
+  forall j, 1 <= j <= nstages s ->
+    In (EvSubmit j) L /\ In (EvMarkComplete j) L /\
+    exists rc, recorded_rc s j = Some rc /\ In (EvAdvance (j + 1) rc) L.
+Proof.
+  intros -> ops y Hrun s Hp Hc L. destruct (sinv_run ops init_sys y sinv_init Hrun) as (Hinv & Hord & _).
+  unfold inv in Hinv. rewrite Hp in Hinv. fold L in Hinv, Hord.
+  pose proof (pinv_rc s L Hinv) as Hrc.
+  destruct Hinv as (Hst & Hlen & Hcomp & Hkeys & _). apply Hcomp in Hc. split; [assumption|].
+  intros j Hj.
+  assert (Hin : In (j + 1) (map fst (advanced L))).
+  { rewrite Hkeys, zseq_In. unfold nstages in *. lia. }
+  apply in_map_iff in Hin. destruct Hin as ([k rc] & Hk & Hin). cbn in Hk. subst k.
+  apply advanced_In in Hin. destruct (in_split _ _ Hin) as (pre & post & HL).
+  pose proof (Hord pre _ post HL) as HJ. cbn in HJ. replace (j + 1 - 1) with j in HJ by lia. destruct HJ as [HM HS].
+  split; [rewrite HL; apply in_or_app; left; assumption|].
+  split; [rewrite HL; apply in_or_app; left; assumption|].
+  exists rc. split; [apply Hrc; assumption|assumption].
+Qed.
